@@ -17,6 +17,26 @@ pub enum Op {
     Garbage(u8),
 }
 pub const NOPS: u64 = 9;
+
+thread_local! {
+    /// when set, the letters of the topic alphabet go on the wire as bytes that are not valid UTF-8
+    /// (a -> ff, b -> fe, c -> c3: topics are byte strings, and the reference model is the same
+    /// under any one-to-one renaming of bytes)
+    pub static BINARY: std::cell::Cell<bool> = const { std::cell::Cell::new(false) };
+}
+pub fn wire_bytes(t: &[u8]) -> Vec<u8> {
+    if !BINARY.with(|b| b.get()) {
+        return t.to_vec();
+    }
+    t.iter()
+        .map(|c| match c {
+            b'a' => 0xff,
+            b'b' => 0xfe,
+            b'c' => 0xc3,
+            x => *x,
+        })
+        .collect()
+}
 pub fn op_of(i: u64, g: u8) -> Op {
     match i {
         0..=3 => Op::Sub(i as usize),
@@ -30,12 +50,12 @@ impl Op {
         match self {
             Op::Sub(t) => {
                 let mut f = vec![1u8];
-                f.extend_from_slice(TOPICS[*t]);
+                f.extend(wire_bytes(TOPICS[*t]));
                 vec![f]
             }
             Op::Unsub(t) => {
                 let mut f = vec![0u8];
-                f.extend_from_slice(TOPICS[*t]);
+                f.extend(wire_bytes(TOPICS[*t]));
                 vec![f]
             }
             Op::Garbage(g) => match g % 4 {
@@ -52,6 +72,7 @@ impl Op {
 /// shapes vary what follows it: a second frame that would complete a longer topic if frames were
 /// concatenated ('a' + 'b..' is not 'ab'), no further frame at all, an empty frame in between.
 pub fn probe_msg(pf: &[u8], n: u32, label: &str) -> Vec<Vec<u8>> {
+    let pf = &wire_bytes(pf)[..];
     match n % 3 {
         0 => vec![pf.to_vec(), format!("b{label}{n}").into_bytes()],
         1 => vec![pf.to_vec()],
@@ -322,7 +343,10 @@ fn history(mut i: u64, g: u8) -> Vec<Op> {
 
 /// every history of length <= 4, one subscriber, undisturbed transport; PUB and XPUB
 fn hist_enum(ctx: &mut Ctx) {
-    let kind = if ctx.idx < NHIST4 { Kind::Pub } else { Kind::Xpub };
+    // indices 0..2*NHIST4: PUB then XPUB with the ASCII alphabet; 2*NHIST4..4*NHIST4: the same with
+    // topics and first frames that are not valid UTF-8
+    BINARY.with(|b| b.set(ctx.idx >= 2 * NHIST4));
+    let kind = if ctx.idx % (2 * NHIST4) < NHIST4 { Kind::Pub } else { Kind::Xpub };
     let h = history(ctx.idx % NHIST4, (ctx.idx % 4) as u8);
     world::plain(ctx);
     ctx.out.extra_shape = ctx.idx;
@@ -332,6 +356,7 @@ fn hist_enum(ctx: &mut Ctx) {
 
 fn hist_random(ctx: &mut Ctx) {
     let kind = if ctx.idx % 2 == 0 { Kind::Pub } else { Kind::Xpub };
+    BINARY.with(|b| b.set((ctx.idx / 2) % 2 == 1));
     world::swarm(ctx, SwarmOpts::default());
     let nsub = 1 + ctx.plan(3) as usize;
     let hs: Vec<Vec<Op>> = (0..nsub).map(|_| (0..ctx.plan(9)).map(|_| op_of(ctx.plan(NOPS), ctx.plan(4) as u8)).collect()).collect();
@@ -347,6 +372,7 @@ fn hist_random(ctx: &mut Ctx) {
 /// well-formedness of every subscriber's stream and the absence of hangs
 fn hist_concurrent(ctx: &mut Ctx) {
     let kind = if ctx.idx % 2 == 0 { Kind::Pub } else { Kind::Xpub };
+    BINARY.with(|b| b.set((ctx.idx / 2) % 2 == 1));
     world::swarm(ctx, SwarmOpts::default());
     let nsub = 2 + ctx.plan(4) as usize;
     let hs: Vec<Vec<Op>> = (0..nsub).map(|_| (0..ctx.plan(7)).map(|_| op_of(ctx.plan(NOPS), ctx.plan(4) as u8)).collect()).collect();
@@ -491,10 +517,10 @@ pub fn def() -> PropDef {
     PropDef {
         id: "C11",
         level: "exploration",
-        rule: "hist_enum: case index enumerates every history of length <= 4 over the 9 subscriber operations {subscribe/unsubscribe x topics '', 'a', 'ab', 'b', garbage} for PUB (indices 0..7381) and XPUB (7382..14763); at a mid-point and at the end the publisher sends all 7 probe first-frames {'', a, ab, abc, b, ba, c} and each subscriber's tap is compared with the multiset-prefix reference model (probe messages alternate between one frame, two frames whose second would complete a longer topic if frames were concatenated, and three frames with an empty one in between); hist_random: 1..3 subscribers, histories <= 8, drawn quiescent points, random transport and schedule; in one case in three subscriber 0 then leaves and a fresh connection takes its place, which must receive nothing before it subscribes and exactly its matches afterwards; non-trivial = at least one probe matched and one did not; distinct = distinct (case, plan, schedule, transport)",
+        rule: "hist_enum: case index enumerates every history of length <= 4 over the 9 subscriber operations {subscribe/unsubscribe x topics '', 'a', 'ab', 'b', garbage} for PUB (indices 0..7381) and XPUB (7382..14763), then both again with the letters of the alphabet sent as bytes that are not valid UTF-8 (ff, fe, c3); the random strata use that alphabet in every other case; at a mid-point and at the end the publisher sends all 7 probe first-frames {'', a, ab, abc, b, ba, c} and each subscriber's tap is compared with the multiset-prefix reference model (probe messages alternate between one frame, two frames whose second would complete a longer topic if frames were concatenated, and three frames with an empty one in between); hist_random: 1..3 subscribers, histories <= 8, drawn quiescent points, random transport and schedule; in one case in three subscriber 0 then leaves and a fresh connection takes its place, which must receive nothing before it subscribes and exactly its matches afterwards; non-trivial = at least one probe matched and one did not; distinct = distinct (case, plan, schedule, transport)",
         assumptions: &["matching is compared only at quiescent points (all subscription messages sent so far have been processed)", "subscribers accept every write (their pipes never answer Pending on writes), so nothing may be dropped"],
         strata: vec![
-            Stratum { name: "hist_enum", quick: 2 * NHIST4, thorough: 2 * NHIST4, exhaustive: (true, true), run: hist_enum, what: "all 7382 histories <= 4 for PUB and for XPUB, one subscriber" },
+            Stratum { name: "hist_enum", quick: 4 * NHIST4, thorough: 4 * NHIST4, exhaustive: (true, true), run: hist_enum, what: "all 7382 histories <= 4 for PUB and for XPUB, one subscriber, with an ASCII and with a non-UTF-8 topic alphabet" },
             Stratum { name: "hist_concurrent", quick: 60_000, thorough: (1_500_000) * 3, exhaustive: (false, false), run: hist_concurrent, what: "2..5 subscribers joining and subscribing concurrently with continuous publishing; final state judged" },
             Stratum { name: "hist_random", quick: 100_000, thorough: (1_500_000) * 3, exhaustive: (false, false), run: hist_random, what: "1..3 subscribers, longer histories, random transport" },
         ],
